@@ -53,6 +53,7 @@ SAF = {'name': 'SAF', 'energy_MJ_per_kg': 44.1, 'EI_H2O': 1356.72515, 'EI_CO2': 
        'non_volatile_carbon_fraction': 0.95, 'lifecycle_CO2': None, 'fuel_sulfur_content_nom': 0.0,
        'sulfate_yield_nom': 0.0}
 FLIGHT_NAMES = ['simulated', 'synthetic']
+_OBJECTS = None
 ENVS = [{'apu': a, 'lifecycle_data': l} for a in ('running', 'unknown', 'none') for l in (True, False)]
 
 
@@ -215,11 +216,16 @@ def outcome(case, idx=0):
     idx is the engine identity shown to the code: one per flight, so that the thousands of calls of a run present
     the same engine under changing configurations / fuels / APUs, as an inventory run does; the Config singleton
     is kept while the configuration does not change."""
-    r = c01.run_impl(case, idx, session=True)
+    global _OBJECTS
+    if _OBJECTS is None:
+        _OBJECTS = c01.Objects()          # per process: the same performance model / fuel / trajectory objects are
+    r = c01.run_impl(case, idx, session=True, objects=_OBJECTS)    # passed again and again, as a caller would
     cfg = case['cfg']
     if 'value' in r:
         v = r['value']
         bad = c01.oracle(case, v)
+        if r.get('inputs_changed'):
+            bad.append(('purity', 'compute_emissions modified its arguments: ' + r['inputs_changed']))
         for comp, label in (('traj_em', 'trajectory'), ('traj_idx', 'trajectory indices'), ('lto_em', 'LTO'),
                             ('lto_idx', 'LTO indices')):
             for s, x in v[comp].items():
